@@ -762,6 +762,10 @@ impl<'a> Runner<'a> {
                 let p = res(*parent, 0);
                 vec![(Req::GetChild { parent: p }, None), (Req::AddVersion { parent: p, data: pay.bytes() }, Some(*pay))]
             }
+            OpKind::Pause => {
+                std::thread::sleep(std::time::Duration::from_millis(1100));
+                vec![]
+            }
             OpKind::ResendStale { k, j } => {
                 let ch = &self.clients[op.client].chain;
                 if ch.is_empty() {
